@@ -90,7 +90,7 @@ def run(ctx):
     ctx.assumptions += [
         "layer G: Verus/Z3 and its rustc front end; opaque stand-ins of contracts/_prelude.rs (Span, Error, Expr, Template, TokenStream) and their assumed specs",
         "layer G: structmeta::Flag::value() == span.is_some() (compared with the registry source text on every run: %s)" % glayer.structmeta_flag_check(),
-        "layer G: extraction rewrites " + json.dumps(g["units"][0]["rewrites_applied"]),
+        "layer G: extraction rewrites " + json.dumps(g["units"][0].get("rewrites_applied")),
         "layer B (bounded, exhaustive over the stated 3136-combination matrix): parsing (syn/structmeta), entry loop and error isolation are executed, not proved",
         "proc_macro2 fallback lexer/printer stands for the compiler's token bridge in layer B",
     ]
